@@ -38,7 +38,7 @@ def c03 (op : String) (args : List String) (impl : String) : Verdict :=
               w.drop 20 == encodeBytes attrs)]
          else []))
     | _, _, _, _, _ => bad "encode-args"
-  | "authresp", [resp, req, secret] =>
+  | "authresp", [_, resp, req, secret] | "authresp", [resp, req, secret] =>
     match unhex resp, unhex req, unhex secret with
     | some resp, some req, some secret =>
       let model := boolStr (isAuthenticResponse md5 resp req secret)
@@ -46,7 +46,8 @@ def c03 (op : String) (args : List String) (impl : String) : Verdict :=
         auth16 resp == Rfc.replyAuth md5 resp (auth16 req) secret
       mk impl model [noCrash impl, ("true_iff_rfc_formula", impl == boolStr spec)]
     | _, _, _ => bad "authresp-args"
-  | "authreq", [req, secret] =>
+  -- (three arguments: the first is a datagram the predicate was shown before, in the same process - history, not input)
+  | "authreq", [_, req, secret] | "authreq", [req, secret] =>
     match unhex req, unhex secret with
     | some req, some secret =>
       let model := boolStr (isAuthenticRequest md5 req secret)
@@ -104,13 +105,20 @@ def c03 (op : String) (args : List String) (impl : String) : Verdict :=
       -- the scripted source fails at most ONCE (at its failAt-th Read, if failAt ≥ 1): at most one call may panic, and
       -- none when the source never fails
       let panics := (toks.filter (· == "P")).length
-      let mayPanic := if (failAtS.toInt?.getD 0) ≥ 1 then 1 else 0
-      let ok := decide (toks.length = n) && allFound && fresh offs && decide (panics ≤ mayPanic)
+      -- `<k>p`: the source fails at its k-th Read and at EVERY Read after it - from the first call that meets the failure
+      -- on, no call can have cryptographic octets, so every one of them panics (and at least one does: the cases have
+      -- more calls than k)
+      let permanent := failAtS.endsWith "p"
+      let mayPanic := if permanent then n else if (failAtS.toInt?.getD 0) ≥ 1 then 1 else 0
+      let afterFirstPanic := toks.dropWhile (· != "P")
+      let goneForGood := !permanent || (decide (panics ≥ 1) && afterFirstPanic.all (· == "P"))
+      let ok := decide (toks.length = n) && allFound && fresh offs && decide (panics ≤ mayPanic) && goneForGood
       let model := if ok then impl else "every packet's 17 octets are a fresh, non-overlapping window of crypto/rand.Reader's stream"
       mk impl model [noCrash impl,
         ("identifier_and_authenticator_come_from_the_entropy_source", allFound),
         ("entropy_is_never_reused", fresh offs),
         ("panics_only_when_the_entropy_source_fails", decide (panics ≤ mayPanic)),
+        ("no_packet_without_the_cryptographic_source", goneForGood),
         ("one_result_per_call", decide (toks.length = n))]
     | none => bad "newstream-n"
   | "new", [code, secret] =>
